@@ -6,37 +6,37 @@ import json, sys
 CHECKS = {
  "C12": ("fault_enumeration",
          "runtime fault injection through harness-supplied writer / reader / fetcher / registry client / finders at every position, with return-value, recovered-panic, directory-copy (crash point) and diagnostic-content oracles",
-         "Every single failure position is enumerated per stream or build: each write offset of Pack's writer (error required), each read offset of Unpack's reader as error and as clean EOF (success only with the complete tree), 16 Unpack policy refusals and 7 Pack policy refusals, incl. cycles found one and two dereferenced directories down (must be IllegalSlugError), each fetcher / registry / finder call of generated builds in all applicable fault modes (plain errors, errors after partial content, errors wrapping context.DeadlineExceeded / Canceled, error and warning diagnostics; all pairs in the thorough tier), each faulted build under a call budget of 4x the fault-free build: error diagnostic from the Add call that ran it, all Builder methods refuse afterwards - also the retried calls of the failed build -, no Bundle, directory does not open; warnings and errors of finders reach caller and tracer intact with file names rewritten, and after a mere warning the bundle is the whole closure; the target directory is copied and opened at every callback entry and exit; read-only target directory at every position as an unprivileged user.",
+         "Every single failure position is enumerated per stream or build: each write offset of Pack's writer (error required), each read offset of Unpack's reader as error and as clean EOF (success only with the complete tree), 16 Unpack policy refusals and 7 Pack policy refusals, incl. cycles found one and two dereferenced directories down (must be IllegalSlugError), each fetcher / registry / finder call of generated builds in all applicable fault modes (plain errors, errors after partial content, errors wrapping context.DeadlineExceeded / Canceled, error and warning diagnostics; all pairs in the thorough tier), each faulted build under a call budget of 4x the fault-free build: error diagnostic from the Add call that ran it, all Builder methods refuse afterwards - also the retried calls of the failed build -, no Bundle, directory does not open; warnings and errors of finders reach caller and tracer intact with file names rewritten, and after a mere warning the bundle is the whole closure; the target directory is copied and opened at every callback entry and exit; read-only target directory at every position as an unprivileged user. Round 6/7: every Add call brings its own tracer and a finder diagnostic must reach the tracer of the call that ran the finder; finder diagnostics without any source range (warning and error); package addresses with query strings in half of the worlds.",
          "Faults are injected at the public boundary only; failures inside go-slug's own filesystem calls are reached through the read-only-directory phase, not per syscall (the strace injector of the design was not built).",
          "DESIGN.md §5 C12"),
  "C13": ("exploration",
          "runtime differential monitor over all Add orders (bundle fingerprints) and over concurrent Add calls on one builder under the Go race detector with yields injected in harness callbacks; coalescing check",
-         "The same multiset of Add calls is built in every order (all n! for n<=4, 24 sampled beyond) and with 2-8 concurrent goroutines (race-instrumented worker, 4 builds per world, PRNG Gosched bursts / sleeps inside every callback); manifest bytes, checksum, top-level names, lookup answers and per-directory contents must equal the reference build, exactly-once counting must hold under concurrency, race reports are violations; packages with equal path->content maps must share a directory and unequal ones must not.",
+         "The same multiset of Add calls is built in every order (all n! for n<=4, 24 sampled beyond) and with 2-8 concurrent goroutines (race-instrumented worker, 4 builds per world, PRNG Gosched bursts / sleeps inside every callback); manifest bytes, checksum, top-level names, lookup answers and per-directory contents must equal the reference build, exactly-once counting must hold under concurrency, race reports are violations; packages with equal path->content maps must share a directory and unequal ones must not. Round 6: reverse lookups (SourceForLocalPath of every package directory, asked 8 times) are part of the fingerprint, and packages that differ only in files the default rules keep out must share a directory.",
          "Interleavings are those the scheduler produced (distinct callback interleavings are counted in the evidence); modes / empty directories of coalesced packages are not compared.",
          "DESIGN.md §5 C13"),
  "C09": ("exploration",
          "runtime monitor: full accessor sweep and directory-tree comparison of Close() vs OpenDir() vs ExtractArchive(WriteArchive())",
-         "Bundles built from worlds with odd addresses, aliases, several registry versions, deprecations, metadata and packages with links, empty directories, odd modes and odd names are re-opened and sent through WriteArchive/ExtractArchive; a sweep over every accessor (incl. all lookups relative to the root and SourceForLocalPath of every path) must print identically for all three (and twice for the first), and the extracted tree must equal the built one. A directed exhaustive phase (48 worlds) covers registry versions that differ only in build metadata; successive bundles of one worker process are built and extracted at different locations.",
+         "Bundles built from worlds with odd addresses, aliases, several registry versions, deprecations, metadata and packages with links, empty directories, odd modes and odd names are re-opened and sent through WriteArchive/ExtractArchive; a sweep over every accessor (incl. all lookups relative to the root and SourceForLocalPath of every path) must print identically for all three (and twice for the first), and the extracted tree must equal the built one. A directed exhaustive phase (48 worlds) covers registry versions that differ only in build metadata; successive bundles of one worker process are built and extracted at different locations. Round 6/7: names beginning with two dots, files without the owner's read bit, and in half of the worlds an archive written after an earlier attempt on the same Bundle broke off.",
          "Modification times are not compared.",
          "DESIGN.md §5 C09"),
  "C10": ("exploration",
          "runtime monitor: physical link resolution and reference ignore verdicts over every package directory of the finished bundle; independent expectation of which fetched trees must fail; snapshot diff around the target directory; exhaustive offender shapes x positions and ordered pairs",
-         "39 shapes (clean and offending links, links led outside by another link, special files, offenders hidden or created by ignore rules, a rule file without final newline) are planted at each of 3 positions of a dependency graph, and all ordered pairs in two packages. The harness materialises the fetched tree itself, removes reference-excluded paths and resolves the remaining links physically to decide whether the build must fail; successful bundles are walked with the physical resolver and the reference matcher; nothing outside the target directory may change.",
+         "39 shapes (clean and offending links, links led outside by another link, special files, offenders hidden or created by ignore rules, a rule file without final newline) are planted at each of 3 positions of a dependency graph, and all ordered pairs in two packages. The harness materialises the fetched tree itself, removes reference-excluded paths and resolves the remaining links physically to decide whether the build must fail; successful bundles are walked with the physical resolver and the reference matcher; nothing outside the target directory may change. Round 6/7: 42 shapes incl. non-ASCII rules and a linked rule file; half of the cases reach the bundle through a symlink; a further exhaustive phase runs every shape after, in the same process, a package whose rule file begins with a negation was built, and a directory selected by a directory rule (no negation in the file) must be gone entirely.",
          "Links to in-package directories are outside the universe.",
          "DESIGN.md §5 C10"),
  "C18": ("exploration",
          "runtime monitor over harness-written manifests: directory-name refusal, containment of every lookup answer, inverse and stability of forward / reverse lookups, refusal of foreign paths",
-         "Field-wise manifests (exhaustive over a 30-name hostile directory alphabet x 3 shapes incl. aliases of equal length), PRNG manifests and structure- / byte-mutated manifests of real builds are written into a bundle root; whenever OpenDir accepts one, the four clauses of the property are checked over all listed packages and registry versions, 15 in-package path shapes (5 of them through links that exist on disk below the package directory, 2 with a back-slash in a name) in two spellings and 7 foreign paths plus, per package directory, a back-slash neighbour and the names differing from it only in case; every listed package is also looked up through text with 8 hostile sub-paths and through addresses derived by relative resolution with 6 climbing operands. 264 documents kept by coverage-guided fuzzing campaigns are replayed; thorough adds a native go test -fuzz run of OpenDir with the lookup assertions.",
+         "Field-wise manifests (exhaustive over a 30-name hostile directory alphabet x 3 shapes incl. aliases of equal length), PRNG manifests and structure- / byte-mutated manifests of real builds are written into a bundle root; whenever OpenDir accepts one, the four clauses of the property are checked over all listed packages and registry versions, 15 in-package path shapes (5 of them through links that exist on disk below the package directory, 2 with a back-slash in a name) in two spellings and 7 foreign paths plus, per package directory, a back-slash neighbour and the names differing from it only in case; every listed package is also looked up through text with 8 hostile sub-paths and through addresses derived by relative resolution with 6 climbing operands. 264 documents kept by coverage-guided fuzzing campaigns are replayed; thorough adds a native go test -fuzz run of OpenDir with the lookup assertions. Round 6/7: relative reverse lookups after the working directory moved since OpenDir; path tails that are not in a Unicode normal form.",
          "The harness learns the document's directory names by decoding it leniently itself.",
          "DESIGN.md §5 C18"),
  "C08": ("exploration",
          "runtime monitor: real Builder driven by scripted fetcher/registry/finders; bundle lookups and files vs a reference closure computed by independent harness code; exhaustive small worlds + PRNG worlds",
-         "Each scripted world is built with the real Builder; a reference closure (harness path algebra and version choice) lists every source that must be resolvable. For every closure source the lookup must succeed, lie inside the bundle directory and show exactly the fetched content; registry lookups must equal the lookup of the named remote address joined with the sub-path; package metadata, registry versions, source addresses and deprecations must be retrievable unchanged. Exhaustive over 2 x 19683 three-location worlds (every 9th in quick) plus PRNG worlds with aliasing content, cycles, diamonds, several finders.",
+         "Each scripted world is built with the real Builder; a reference closure (harness path algebra and version choice) lists every source that must be resolvable. For every closure source the lookup must succeed, lie inside the bundle directory and show exactly the fetched content; registry lookups must equal the lookup of the named remote address joined with the sub-path; package metadata, registry versions, source addresses and deprecations must be retrievable unchanged. Exhaustive over 2 x 19683 three-location worlds (every 9th in quick) plus PRNG worlds with aliasing content, cycles, diamonds, several finders. Round 6/7: a registry-named address whose sub-path holds '+', and deprecations that consist of a link only.",
          "Fault-free worlds only (in a third of them finder runs also raise warnings, which are not faults); finders identify content by a marker file.",
          "DESIGN.md §5 C08"),
  "C14": ("exploration",
          "offline checker over the recorded callback + BuildTracer event log: exactly-once counting against the reference closure and a per-key bracket automaton; logical termination bound",
-         "Same worlds as C08. All fetcher/registry/finder calls and trace events go to one sequence-numbered log; the checker requires exactly one fetch per closure package (none outside), one version-list request per registry package, one source-address request per selected version, finder runs equal to the number of distinct closure addresses per (content, sub-path, finder), and start->(success|failure)->already* per key. A build exceeding 4x the closure's callback count is aborted and reported as non-terminating. A further phase fails every callback position of generated worlds in turn and runs the bracket automaton over the faulted build's log (failure answers a start; 'already' only after a success).",
+         "Same worlds as C08. All fetcher/registry/finder calls and trace events go to one sequence-numbered log; the checker requires exactly one fetch per closure package (none outside), one version-list request per registry package, one source-address request per selected version, finder runs equal to the number of distinct closure addresses per (content, sub-path, finder), and start->(success|failure)->already* per key. A build exceeding 4x the closure's callback count is aborted and reported as non-terminating. A further phase fails every callback position of generated worlds in turn and runs the bracket automaton over the faulted build's log (failure answers a start; 'already' only after a success). Round 6: every start callback of the harness tracer returns a context with a fresh span token and the end event must arrive on that context.",
          "Order of events is unconstrained; the counting clauses are checked on fault-free worlds only, the trace clauses also under single faults.",
          "DESIGN.md §5 C14"),
  "C17": ("exploration",
@@ -46,17 +46,17 @@ CHECKS = {
          "DESIGN.md §5 C17"),
  "C16": ("exploration",
          "runtime differential monitor (decoded slug vs baseline) over spellings / working directories / symlinked roots / call histories, and the Go race detector over concurrent Pack calls",
-         "For every generated tree and option set the decoded entry list of Pack by the absolute clean path is compared with the lists obtained under 23 variations of spelling, working directory, route through symlinks and preceding calls; concurrent rounds (fresh race-instrumented process each, 8-16 goroutines behind a barrier, default-rule and negation-first rule files mixed) compare every output with a solo run and treat any race-detector report as a violation.",
+         "For every generated tree and option set the decoded entry list of Pack by the absolute clean path is compared with the lists obtained under 23 variations of spelling, working directory, route through symlinks and preceding calls; concurrent rounds (fresh race-instrumented process each, 8-16 goroutines behind a barrier, default-rule and negation-first rule files mixed) compare every output with a solo run and treat any race-detector report as a violation. Round 6/7: 27 variations incl. a symlinked parent that pointed elsewhere at an earlier Pack and a root link with '..' in its target reached through a symlinked directory; in the unshared concurrent rounds every other goroutine uses the package-level Pack with alternating dereference flag.",
          "Interleavings are those the scheduler produced; the baseline is produced by the same code in the same process.",
          "DESIGN.md §5 C16"),
  "C03": ("exploration",
          "runtime monitor: set of shipped files (real Pack in 3 modes + one-package bundle build) vs an independent segment-wise glob reference over a fixed path universe; exhaustive single rules and ordered pairs",
-         "For every generated rule file the files actually shipped by Pack (ignore on, ignore off, through a dereferenced external directory) and left in a bundle package directory are compared with the verdict of ref.Excluded (a regexp-free, segment-wise implementation of the documented rule language) for every path of the universe. Exhaustive over all single rules (3048) and all ordered pairs of a rule core; PRNG files with comments, blanks, padding and CRLF; every rule file ends, depending on its text, with LF, CR LF or no line terminator; a rule file that is a directory or has an over-long line leaves the built-in rules in force; all triples (A, B, A) of a 25-rule core; thorough adds ordered triples and the full 323-path universe.",
+         "For every generated rule file the files actually shipped by Pack (ignore on, ignore off, through a dereferenced external directory) and left in a bundle package directory are compared with the verdict of ref.Excluded (a regexp-free, segment-wise implementation of the documented rule language) for every path of the universe. Exhaustive over all single rules (3048) and all ordered pairs of a rule core; PRNG files with comments, blanks, padding and CRLF; every rule file ends, depending on its text, with LF, CR LF or no line terminator; a rule file that is a directory or has an over-long line leaves the built-in rules in force; all triples (A, B, A) of a 25-rule core; thorough adds ordered triples and the full 323-path universe. Round 7: the path universe also holds four paths of depth 4-5 with a .git directory below .terraform/modules.",
          "Directory entries are not judged; when the dereferenced link's own path is excluded no claim is made about paths below it; undocumented pattern forms are excluded from the universe.",
          "DESIGN.md §5 C03"),
  "C15": ("exploration",
          "runtime reference interpreter of the entry list vs the destination tree read back with Lstat/Readlink; exhaustive short sequences x tar formats x privilege",
-         "A reference interpreter reads each entry sequence into an abstract tree (last entry per path wins, implicit parents without metadata, directory metadata final); the real Unpack runs as root and as uid 65534 inside a chroot and the destination is compared field by field (kind, content, permission bits, mtime, link target, no extra paths). Conflict-free representable sequences must unpack; hard link / device / fifo entries (also inserted at every position of PRNG sequences) must make it fail. Entry sequences kept by coverage-guided fuzzing campaigns (harness/corpus) are replayed under the same oracle; header records (PAX 'g') must have no effect on the destination; an entry that re-uses the path of an earlier link must replace it if the archive is accepted; the destination is written in 9 spellings; the gzip stream cut into three members is a fourth 'format'; entries for the archive root prescribe the destination's own mode and time; entries may carry an access time different from their modification time.",
+         "A reference interpreter reads each entry sequence into an abstract tree (last entry per path wins, implicit parents without metadata, directory metadata final); the real Unpack runs as root and as uid 65534 inside a chroot and the destination is compared field by field (kind, content, permission bits, mtime, link target, no extra paths). Conflict-free representable sequences must unpack; hard link / device / fifo entries (also inserted at every position of PRNG sequences) must make it fail. Entry sequences kept by coverage-guided fuzzing campaigns (harness/corpus) are replayed under the same oracle; header records (PAX 'g') must have no effect on the destination; an entry that re-uses the path of an earlier link must replace it if the archive is accepted; the destination is written in 9 spellings; the gzip stream cut into three members is a fourth 'format'; entries for the archive root prescribe the destination's own mode and time; entries may carry an access time different from their modification time. Round 6/7: a link entry over an earlier file or empty directory (last wins if accepted); a directory entry without search permission above another directory entry (unprivileged: refusal not judged, success judged); names with several leading slashes.",
          "Sequences whose sequential reading is itself undefined (entry over an existing link, file vs directory conflicts) are counted but not judged; implicit parents' metadata, symlink mtimes and the destination root are not compared.",
          "DESIGN.md §5 C15"),
  "C02": ("exploration",
@@ -76,12 +76,12 @@ CHECKS = {
          "DESIGN.md §5 C20"),
  "C01": ("exploration",
          "runtime snapshot-diff monitor (incl. ctime/inode/content hash) around Unpack in a chroot arena; exhaustive short entry sequences + PRNG + reader faults at every offset",
-         "Each hostile archive is unpacked by the real Unpack inside a chroot whose every path outside dst is snapshotted before and after the call (type, mode, owner, size, nlink, inode, mtime, ctime, link target, content hash); any difference, on success or error, is a violation. Sequences: all singles x 4 arenas x 10 allow-lists, all pairs (quick) / triples (thorough) of a 50-entry alphabet covering every name/target shape x type, all triples of a 28-entry alphabet of cooperating entries, PRNG sequences, link-focused sequences, entry sequences kept by coverage-guided fuzzing campaigns, a Packer reused for a second destination with destination-relative allow-list entries (also after a first call that broke off half way), a second Unpack into the same destination (same or fresh Packer; also with the destination removed and made anew in between) with entries arriving where the first call left links or directories, 1-4 links led outside by another link in one archive (also passing twice through the same link) with and without a refused entry behind them, with files, links and directories of the same names sitting in the working directory, 7 spellings of dst, and streams with the reader failing or ending at every byte offset (incl. inside the body of a large file for every arena x spelling). Thorough adds a native go test -fuzz run (80000 executions, containment assertion).",
+         "Each hostile archive is unpacked by the real Unpack inside a chroot whose every path outside dst is snapshotted before and after the call (type, mode, owner, size, nlink, inode, mtime, ctime, link target, content hash); any difference, on success or error, is a violation. Sequences: all singles x 4 arenas x 10 allow-lists, all pairs (quick) / triples (thorough) of a 50-entry alphabet covering every name/target shape x type, all triples of a 28-entry alphabet of cooperating entries, PRNG sequences, link-focused sequences, entry sequences kept by coverage-guided fuzzing campaigns, a Packer reused for a second destination with destination-relative allow-list entries (also after a first call that broke off half way), a second Unpack into the same destination (same or fresh Packer; also with the destination removed and made anew in between) with entries arriving where the first call left links or directories, 1-4 links led outside by another link in one archive (also passing twice through the same link) with and without a refused entry behind them, with files, links and directories of the same names sitting in the working directory, 7 spellings of dst, and streams with the reader failing or ending at every byte offset (incl. inside the body of a large file for every arena x spelling). Thorough adds a native go test -fuzz run (80000 executions, containment assertion). Round 6/7: every arena also has a sibling that differs from dst only in the case of its letters, and a second archive may consist of a lone directory entry arriving where the first call left a link.",
          "Root inside a chroot on tmpfs; atime ignored; pre-populated dst has no symlinks.",
          "DESIGN.md §5 C01"),
  "C04": ("exploration",
          "runtime physical symlink resolver over dst after Unpack in a chroot arena; refusal clause for absolute / escaping link entries",
-         "Same workload as C01. After each Unpack every symlink under dst is resolved component-wise with Lstat/Readlink inside the chroot and must end inside the real path of dst unless allow-listed; an archive with an absolute or escaping link entry (judged at the place the link is created) must not unpack successfully. Links led outside by another link on the way (a dot-dot segment after a component that is a symlink) are classified separately (dotdot-after-symlink-component; repaired in /repo, see known_findings.json).",
+         "Same workload as C01. After each Unpack every symlink under dst is resolved component-wise with Lstat/Readlink inside the chroot and must end inside the real path of dst unless allow-listed; an archive with an absolute or escaping link entry (judged at the place the link is created) must not unpack successfully. Links led outside by another link on the way (a dot-dot segment after a component that is a symlink) are classified separately (dotdot-after-symlink-component; repaired in /repo, see known_findings.json). Round 6/7: links passing through an allow-listed absolute link and then climbing, dangling led-outside links, and targets with 300 components that follow no link in front of the one that leads outside.",
          "Links resolving nowhere are not escapes; with an allow-list only the physical resolver judges.",
          "DESIGN.md §5 C04"),
  "C06": ("exploration",
@@ -91,7 +91,7 @@ CHECKS = {
          "DESIGN.md §5 C06"),
  "C07": ("exploration",
          "runtime policy predicate over accessors of every accepted remote address; grammar must-accept; exhaustive single-rule-violation table; constructor tampering",
-         "An independent policy predicate (type, scheme, userinfo, query arguments, archive form, sub-path segments) is evaluated on every remote address accepted by any route (4 string parsers and MakeRemoteSource) over grammar strings (which must be accepted), an exhaustive table of single-rule violations x spellings (which must be rejected), mutated/arbitrary strings, the strings kept by coverage-guided fuzzing campaigns, percent-encoded and case-varied spellings of the archive / checksum / ref arguments, and (type,URL,sub-path) triples with one tampered part.",
+         "An independent policy predicate (type, scheme, userinfo, query arguments, archive form, sub-path segments) is evaluated on every remote address accepted by any route (4 string parsers and MakeRemoteSource) over grammar strings (which must be accepted), an exhaustive table of single-rule violations x spellings (which must be rejected), mutated/arbitrary strings, the strings kept by coverage-guided fuzzing campaigns, percent-encoded and case-varied spellings of the archive / checksum / ref arguments, and (type,URL,sub-path) triples with one tampered part. Round 6: a constructor tamper with a stale RawPath and a phase giving one URL to the constructor under two source types.",
          "The predicate in props/c07.go is the reading of the documented policy; must-accept is limited to documented forms.",
          "DESIGN.md §5 C07"),
  "C19": ("exploration",
@@ -102,7 +102,7 @@ CHECKS = {
  # id: (level category, technique, level text, level note, design ref)
  "C11": ("exploration",
          "runtime oracle: segment-stack reference vs real resolve functions, exhaustive small space + PRNG",
-         "Every (base, relative) pair over bases of all four kinds with paths of depth 0..4 and every accepted relative string of <=5 segments over {name,.,..} is executed against the real ResolveRelative{,Final}Source and compared with an independent segment-stack reference (kind, package, version, path, failure on underflow); each pair is also composed with all short third operands; FinalSourceAddr is enumerated over all sub-path pairs of depth <=4. Held = held on every execution observed.",
+         "Every (base, relative) pair over bases of all four kinds with paths of depth 0..4 and every accepted relative string of <=5 segments over {name,.,..} is executed against the real ResolveRelative{,Final}Source and compared with an independent segment-stack reference (kind, package, version, path, failure on underflow); each pair is also composed with all short third operands; FinalSourceAddr is enumerated over all sub-path pairs of depth <=4. Held = held on every execution observed. Round 6: an exhaustive phase over segment names that look like syntax ('..foo', '...', 'q?').",
          "Trusts the reference in harness/ref/pathalg.go as the meaning of path algebra; observes only public accessors and String().",
          "DESIGN.md §5 C11"),
 }
